@@ -840,6 +840,13 @@ class Message(ABC):
                 # Found a non-sentinel value
                 all_sentinel = False
 
+                if (
+                    isinstance(value, Message)
+                    and not value._betterproto.meta_by_field_name
+                ):
+                    # Same as in __setattr__, which pydantic's __init__ bypasses.
+                    value._serialized_on_wire = True
+
                 if meta.group:
                     # This was set, so make it the selected value of the one-of.
                     group_current[meta.group] = field_name
